@@ -8,8 +8,8 @@ import Abverif.Model.WsSub
 C13 — WAMP transports attach a session only after valid negotiation and fail closed.
 
 Property theorems. Every defect of this property found so far was repaired in /repo — F12 (77273b88), F14 (11645fb6),
-F13 (PENDING-asyncio-rawsocket-ping-pong), N1 (PENDING-twisted-rawsocket-length-limit-exceeded),
-N2 (PENDING-rawsocket-send-24-bit-length) — and the model follows the source through generated constants, so
+F13 (4c355c2c), N1 (3817d6f2),
+N2 (8cc5721d) — and the model follows the source through generated constants, so
 `rs_refuse_clean`, `rs_limits_error_class`, `prefix_never_raises`, `rs_never_raises`, `aio_serves`, `rs_send_delivered`
 are full theorems; re-introducing a defect changes a generated constant and the theorem stops checking.
 -/
@@ -444,7 +444,7 @@ theorem sendGuard_none_iff (v : Variant) (m len : Nat) (hm : 0 < m) :
 
 /-- **A sender never emits a message longer than the maximum the peer announced, nor one that does not fit the 24-bit
 length field; it gets an error instead** — and what it emits is exactly one data frame: type octet 0, the 24-bit
-length, the payload. (Before /repo PENDING-rawsocket-send-24-bit-length a payload of exactly 2^24 octets, which exponent 15
+length, the payload. (Before /repo 8cc5721d a payload of exactly 2^24 octets, which exponent 15
 nominally admits, went out with prefix `01 00 00 00` — N2; the caps are read from the source, `twSendFrameCap`,
 `aioSendFrameCap`.) -/
 theorem rs_limits (v : Variant) (m : Nat) (p : Bytes) (hm : 0 < m) :
@@ -498,7 +498,7 @@ theorem rs_limits_after_handshake (c : Cfg) (o1 o2 o3 o4 : UInt8) (p : Bytes) (m
 one data frame; any other is refused with `PayloadExceededError` (which the WAMP session layer catches to send its fallback
 ERROR) and nothing is written.
 (Before /repo 11645fb6 the asyncio transport raised `ValueError` — F14; the class raised is read from the source into
-`aioSendOverLimitExc`. Before /repo PENDING-rawsocket-send-24-bit-length exactly 2^24 octets were misframed — N2.) -/
+`aioSendOverLimitExc`. Before /repo 8cc5721d exactly 2^24 octets were misframed — N2.) -/
 def RsLimitsErrorClassFull : Prop := ∀ (v : Variant) (m : Nat) (p : Bytes), 0 < m → send v m p = sendSpec m p
 
 theorem rs_limits_error_class (v : Variant) (m : Nat) (p : Bytes) (hm : 0 < m) : send v m p = sendSpec m p := by
@@ -859,7 +859,7 @@ theorem aio_oversize_rejected (max : Nat) (ps : List Bytes) (hps : ∀ p ∈ ps,
 
 /-- Twisted: the same decision point (`length > MAX_LENGTH` → `lengthLimitExceeded` before anything is
 waited for), and the same orderly outcome: the transport is aborted, no exception leaves `dataReceived`
-(N1, repaired in /repo PENDING-twisted-rawsocket-length-limit-exceeded: the override used to raise `PayloadExceededError`) -/
+(N1, repaired in /repo 3817d6f2: the override used to raise `PayloadExceededError`) -/
 theorem tw_oversize_rejected (max : Nat) (ps : List Bytes) (hps : ∀ p ∈ ps, p.length ≤ max ∧ p.length < 4294967296)
     (b0 b1 b2 b3 : UInt8) (hbig : be32 b0 b1 b2 b3 > max) (rest : Bytes) (cs : List Bytes)
     (hcs : cs.flatten = twStream ps (b0 :: b1 :: b2 :: b3 :: rest)) :
@@ -930,7 +930,7 @@ theorem aio_framed_typed (max : Nat) (fs : List (Nat × Bytes))
 /-- **PING is answered, PONG is consumed, messages are delivered — in order, under any segmentation** (asyncio): a stream of
 complete frames of the three types (each within the local maximum) followed by an unfinished frame produces exactly the
 events the Spec asks for, frame by frame; nothing is closed, nothing is raised, and the connection goes on holding the
-unfinished part. (Before /repo PENDING-asyncio-rawsocket-ping-pong `NotImplementedError` left `data_received` at the first PING or PONG — F13.) -/
+unfinished part. (Before /repo 4c355c2c `NotImplementedError` left `data_received` at the first PING or PONG — F13.) -/
 theorem aio_serves (max : Nat) (fs : List (Nat × Bytes))
     (hfs : ∀ f ∈ fs, f.1 ≤ 2 ∧ f.2.length ≤ max ∧ f.2.length < 16777216)
     (tailS : Bytes) (ht : Settled (aioFraming max) tailS) (cs : List Bytes)
@@ -1036,7 +1036,7 @@ example : feedAll (twFraming 16777216) (some PSt.init) [[0x01, 0x00, 0x00, 0x01,
 
 /-- **a message a sender emits is delivered intact by a receiver of either framework whose own maximum admits it, however
 TCP cuts it**: the wire form is one data frame that both framings read as exactly that payload — there is no length
-for which the 4-octet prefix means something else. (Before /repo PENDING-rawsocket-send-24-bit-length a payload of exactly 2^24 octets went
+for which the 4-octet prefix means something else. (Before /repo 8cc5721d a payload of exactly 2^24 octets went
 out as `01 00 00 00 …`, which an asyncio receiver reads as a PING of length 0 followed by garbage — N2.) -/
 theorem rs_send_delivered (v : Variant) (m : Nat) (p w : Bytes) (hm : 0 < m) (hs : send v m p = .sent w)
     (c : Cfg) (hr : p.length ≤ c.maxRecv) (cs : List Bytes) (hcs : cs.flatten = w) :
